@@ -182,4 +182,91 @@ AnnotVerdict(T, O, recs, rc, obs) ==
            bad == { i \in 1..Len(recs) : vs[i] # "ok" /\ vs[i] # "known:scientific_name_key" }
        IN IF bad # {} THEN vs[CHOOSE i \in bad : TRUE]
           ELSE IF \E i \in 1..Len(recs) : vs[i] # "ok" THEN "known:scientific_name_key" ELSE "ok"
+
+-----------------------------------------------------------------------------
+(* obiannotate --add-lca-in SLOT [--lca-error e]                               *)
+(* The record carries a bag of taxids with weights (merged_taxid) or one taxid. *)
+(*   bag = sequence of <<id, weight>> (ids distinct, all meaning a taxon)      *)
+(*   E   = the tolerated error in 1/1000                                       *)
+EndsWith(s, suf) == Len(s) >= Len(suf) /\ SubSeq(s, Len(s) - Len(suf) + 1, Len(s)) = suf
+FirstAt(s, w)    == CHOOSE i \in 0..(Len(s) - Len(w)) :
+                       /\ SubSeq(s, i + 1, i + Len(w)) = w
+                       /\ \A j \in 0..(i - 1) : SubSeq(s, j + 1, j + Len(w)) # w
+ReplaceFirst(s, w, by) == IF ~Contains(s, w) THEN s
+                          ELSE LET i == FirstAt(s, w) IN SubSeq(s, 1, i) \o by \o SubSeq(s, i + Len(w) + 1, Len(s))
+
+(* the three attributes: SLOT_taxid (SLOT itself when it already ends in "taxid"), and the same key  *)
+(* with "taxid" replaced by "name" / "error"; the bare slot "taxid" goes with scientific_name and    *)
+(* lca_error                                                                                           *)
+LcaKeys(slot) ==
+  LET t == IF EndsWith(slot, "taxid") THEN slot ELSE slot \o "_taxid"
+      n == ReplaceFirst(t, "taxid", "name")   e == ReplaceFirst(t, "taxid", "error")
+  IN [taxid |-> t, name |-> IF n = "name" THEN "scientific_name" ELSE n, error |-> IF e = "error" THEN "lca_error" ELSE e]
+
+(* weight of the bag lying in the clade of c *)
+BagWeight(T, bag, c) ==
+  LET f[i \in 0..Len(bag)] ==
+        IF i = 0 THEN 0 ELSE f[i - 1] + (IF SubCladeWalk(T, Resolve(T, bag[i][1]), c) THEN bag[i][2] ELSE 0)
+  IN f[Len(bag)]
+
+(* What the documentation promises of the answer c and of the reported error v (in 1/1000):          *)
+(*  - c lies in the clade of the exact LCA of the bag (C14);                                         *)
+(*  - at most the fraction E of the weight disagrees with c (lies outside its clade);                *)
+(*  - the reported error is at most E and is not smaller than the disagreeing fraction.              *)
+(* Hence E = 0 accepts the exact LCA only, with error 0.  One unit of slack for the roundings.       *)
+(* WHICH of the acceptable taxa is answered (the code descends towards the heaviest child and        *)
+(* breaks ties in hash order) is not stated.                                                         *)
+LcaAccepts(T, bag, E, c, v) ==
+  LET S  == { Resolve(T, bag[i][1]) : i \in 1..Len(bag) }
+      W  == BagWeight(T, bag, Root(T))
+  IN /\ c \in Node(T)
+     /\ SubCladeWalk(T, c, SetLCA(T, S))
+     /\ LET wc == BagWeight(T, bag, c) IN
+        /\ 1000 * wc + 1 >= (1000 - E) * W
+        /\ 1000 * (W - wc) <= (v + 1) * W
+     /\ v >= 0 /\ v <= E
+
+(* Taxonomy.TaxonomicDistribution AS WRITTEN: when two ids of the bag mean the same taxon (a merged id and its   *)
+(* new id) the weight of one of them replaces the weight of the other instead of being added to it: the bag the  *)
+(* code sees is the bag without one of the two entries (which one: hash order)                                   *)
+RemoveAt(bag, i) == SubSeq(bag, 1, i - 1) \o SubSeq(bag, i + 1, Len(bag))
+DropOne(T, bag)  == { RemoveAt(bag, i) : i \in { i \in 1..Len(bag) :
+                         \E j \in 1..Len(bag) : j # i /\ Resolve(T, bag[j][1]) = Resolve(T, bag[i][1]) } }
+
+IndexOf(ks, key) == IF \E j \in 1..Len(ks) : ks[j] = key THEN CHOOSE j \in 1..Len(ks) : ks[j] = key ELSE 0
+
+(* one record: r = [bag, astaxid] (astaxid: the bag is one taxid written as a plain taxid attribute);  *)
+(* o = the record written: integer (ik/iv), text (sk/sv), fractional (fk/fv, in 1/1000) and map (mk)   *)
+(* attributes                                                                                          *)
+LcaRecVerdict(T, slot, E, r, o) ==
+  LET K  == LcaKeys(slot)
+      jt == IndexOf(o.ik, K.taxid)   jn == IndexOf(o.sk, K.name)
+      je == IndexOf(o.fk, K.error)   jz == IndexOf(o.ik, K.error)           \* an error of 0 or 1 is written as an integer
+      v  == IF je # 0 THEN o.fv[je] ELSE IF jz # 0 THEN 1000 * o.iv[jz] ELSE -1
+      keys == RngF(o.ik) \cup RngF(o.sk) \cup RngF(o.fk) \cup RngF(o.mk)
+      \* a record that had a plain taxid is also given the bag merged_taxid = {taxid: 1}: accepted, not demanded
+      want == {K.taxid, K.name, K.error} \cup (IF r.astaxid THEN {"taxid"} ELSE {"merged_taxid"})
+      okkeys == keys = want \/ (r.astaxid /\ keys = want \cup {"merged_taxid"})
+  IN IF o.n # 1 THEN "record lost or duplicated"
+     ELSE IF ~okkeys \/ Len(o.ik) + Len(o.sk) + Len(o.fk) + Len(o.mk) # Cardinality(keys) THEN "attribute names"
+     ELSE IF jt = 0 \/ jn = 0 \/ v < 0 THEN "attribute names"
+     ELSE IF o.iv[jt] \notin Node(T) THEN "lca"
+     ELSE IF ~LcaAccepts(T, r.bag, E, o.iv[jt], v) THEN
+             (IF \E b \in DropOne(T, r.bag) : LcaAccepts(T, b, E, o.iv[jt], v) THEN "known:lca_synonym_weight_lost" ELSE "lca")
+     ELSE IF o.sv[jn] # T.name[o.iv[jt]] THEN "lca name"
+     ELSE IF r.astaxid /\ K.taxid # "taxid" /\ (IndexOf(o.ik, "taxid") = 0 \/ o.iv[IndexOf(o.ik, "taxid")] # r.bag[1][1]) THEN "taxid changed"
+     ELSE "ok"
+
+IsBag(T, bag) == /\ Len(bag) >= 1
+                 /\ \A i \in 1..Len(bag) : Resolve(T, bag[i][1]) # 0 /\ bag[i][2] >= 1
+                 /\ \A i, j \in 1..Len(bag) : bag[i][1] = bag[j][1] => i = j
+
+LcaVerdict(T, slot, E, recs, rc, obs) ==
+  IF \E i \in 1..Len(recs) : ~IsBag(T, recs[i].bag) \/ (recs[i].astaxid /\ Len(recs[i].bag) # 1) THEN "bad-input"
+  ELSE IF rc # 0 THEN "failed"
+  ELSE IF Len(obs) # Len(recs) THEN "bad-input"
+  ELSE LET vs  == [i \in 1..Len(recs) |-> LcaRecVerdict(T, slot, E, recs[i], obs[i])]
+           bad == { i \in 1..Len(recs) : vs[i] # "ok" /\ vs[i] # "known:lca_synonym_weight_lost" }
+       IN IF bad # {} THEN vs[CHOOSE i \in bad : TRUE]
+          ELSE IF \E i \in 1..Len(recs) : vs[i] # "ok" THEN "known:lca_synonym_weight_lost" ELSE "ok"
 =============================================================================
